@@ -236,8 +236,8 @@ def run(M, rec, tier, seed, k, n):
 
     saved = E.get_current_engine()
     try:
-        selection_histories(M, rec, rng, 300 if tier == "quick" else 3000)
-        spy_runs(M, rec, rng, g, 45 if tier == "quick" else 350)
+        selection_histories(M, rec, rng, 300 if tier == "quick" else 10000)
+        spy_runs(M, rec, rng, g, 45 if tier == "quick" else 700)
     finally:
         E.use(saved)
 
